@@ -79,6 +79,14 @@ def run(chk: core.Check, tier: str, seed: int) -> None:
                 del d["on"]
             recs.append(impl.rec_find(jp, q, d))
             del d
+    # a nondeterministic environment may reorder object members only: filters on ARRAYS keep their order
+    from .. import probes  # noqa: PLC0415
+    nd_env = probes.make_env(jp, [], [], nondeterministic=True)
+    for e in rng.sample(exprs, 60 if tier == "quick" else 1500):
+        for _ in range(3):
+            recs.append(impl.rec_find(jp, f"$.arr[?{e}]", root, env=nd_env, edoc=e_root))
+        recs.append(impl.rec_find(jp, f"$[?{e}]", root_arr, env=nd_env, edoc=e_arr))
+        recs.append(impl.rec_find(jp, f"$.arr[?{e}, 0, ?{e}]", root, env=nd_env, edoc=e_root))
     n_sys = len(recs)
     n_rand = 3000 if tier == "quick" else 80000
     for k in range(n_rand):
